@@ -27,3 +27,7 @@ Record storage_guards := {
 (* cache.BaseCache.save: which file is written first; what happens when the save raises part-way *)
 Inductive save_order := MetaThenData | DataThenMeta | UnknownOrder.
 Inductive save_cleanup := CleanupDelete | NoCleanup | UnknownCleanup.
+
+(* process.ProcessExecutor._start_processes: how many pending futures are started; which Process constructor is used *)
+Inductive start_policy := StartUpToMax | StartAllPending | StartUnknown.
+Inductive proc_ctor := CtorMpContext | CtorModuleDefault | CtorUnknown.
